@@ -39,3 +39,22 @@ func (t *SerializableTime) UnmarshalJSON(data []byte) error {
 
 	return nil
 }
+
+// UnmarshalYAML decodes the same text UnmarshalJSON accepts: without it the
+// embedded time.Time makes YAML decoders parse the value as an RFC 3339
+// timestamp, and every time that is valid as JSON is rejected as YAML.
+func (t *SerializableTime) UnmarshalYAML(unmarshal func(interface{}) error) error {
+	var text string
+	if err := unmarshal(&text); err != nil {
+		return fmt.Errorf("unable to parse time from YAML: %w", err)
+	}
+
+	parsedTime, err := time.Parse(time.TimeOnly, text)
+	if err != nil {
+		return fmt.Errorf("unable to parse time from YAML: %w", err)
+	}
+
+	t.Time = parsedTime
+
+	return nil
+}
